@@ -122,6 +122,12 @@ def step (_ : Unit) (line : String) : Unit × String :=
       match DType.ofString? t, parseNats bs with
       | some t, some bs => showE (bytesDecode t bs)
       | _, _ => "bad-op"
+    | ["smallest", xs] =>
+      match parseInts xs with
+      | some xs => match toSmallest xs with
+        | some (n, _, _) => "ok " ++ n
+        | none => "ERR:ValueError"
+      | none => "bad-op"
     | ["chain", c, t, xs] =>
       match parseChain c, DType.ofString? t, parseInts xs with
       | some c, some t, some xs =>
